@@ -852,7 +852,11 @@ class RTCPeerConnection(AsyncIOEventEmitter):
 
         # configure direction
         for t in self.__transceivers:
-            if description.type in ["answer", "pranswer"]:
+            # a transceiver which is not part of the offer has no offered direction
+            if (
+                description.type in ["answer", "pranswer"]
+                and t._offerDirection is not None
+            ):
                 t._setCurrentDirection(and_direction(t.direction, t._offerDirection))
 
         # gather candidates
